@@ -483,16 +483,21 @@ def c_shared_structure(ctx, enc):
               "lists are registered in `refs` like dicts/sets/tuples" if not inline else
               "a list is emitted inline and never entered into `refs`: a list shared by two flows (`start collector $heard`, the child appends) comes back as two independent lists, the child's updates "
               "are invisible to the parent after a restore", line=(lb[0].lineno if lb else enc.lineno))
-    # (3) dict keys
+    # (3) dict keys: the branch that a dict with a NON-string key takes must not use its keys as JSON object keys
+    from ..source import truth as _truth
+    facts = {(lambda a: isinstance(a, ast.Call) and src(a.func) == "isinstance" and len(a.args) == 2 and src(a.args[0]) == "obj" and "dict" in src(a.args[1])): True,
+             (lambda a: isinstance(a, ast.Call) and src(a.func) == "all" and "str" in src(a)): False,
+             (lambda a: isinstance(a, ast.Call) and src(a.func) == "any" and "str" in src(a)): True}
     db = None
-    for i in ast.walk(enc):
-        if isinstance(i, ast.If) and re.sub(r"\s", "", src(i.test)) == "isinstance(obj,dict)":
+    for i in sorted([x for x in ast.walk(enc) if isinstance(x, ast.If) and "dict" in src(x.test) and "isinstance(obj" in src(x.test)], key=lambda x: x.lineno):
+        if _truth(i.test, facts) is not False:
             db = i
+            break
     keys_ok = True
     if db is not None:
         comps = [c for st in db.body for c in ast.walk(st) if isinstance(c, ast.DictComp)]
-        keys_ok = not any(isinstance(c.key, ast.Name) for c in comps) or "items" in "".join(src(st) for st in db.body if isinstance(st, ast.Assign) and "__type" in src(st) and "\"items\"" in src(st))
-        keys_ok = keys_ok and not any(isinstance(c.key, ast.Name) and not any("isinstance(k, str)" in src(x) or "all(" in src(x) for x in ast.walk(db)) for c in comps)
+        # a comprehension `{k: enc(v) for k, v in obj.items()}` keeps the raw key as JSON object key
+        keys_ok = not any(isinstance(c.key, ast.Name) for c in comps)
     ctx.check("C11.b.dict-keys", SER, enc.name, "dict keys survive the round trip", keys_ok,
               "non-string dict keys are encoded explicitly" if keys_ok else
               "dict keys are used as JSON object keys as they are: json.dumps turns `{1: \"one\"}` into `{\"1\": ...}` and nothing converts them back, so `$names[2]` works live and fails after a restore", line=(db.lineno if db else enc.lineno))
